@@ -91,14 +91,22 @@ def set_updates(fa):
     return flat
 
 
+def _pd_params(ck):
+    """(caller, callee) parameter names of propagate_dependencies: the roles are positional."""
+    f = ck.repo.try_func(RL + ".propagate_dependencies")
+    ps = f.params if f is not None else []
+    return (ps[0], ps[1]) if len(ps) >= 2 else ("caller_memento", "result_memento")
+
+
 def prop_sites(fa):
     sites = []
+    P_CALLER, P_RESULT = _pd_params(fa.ck)
     for c in fa.calls("propagate_dependencies"):
         ids = fa.nodes(c)
         if not ids:
             continue
-        cm = A.arg_or_kw(c, 0, "caller_memento")
-        rm = A.arg_or_kw(c, 1, "result_memento")
+        cm = A.arg_or_kw(c, 0, P_CALLER)
+        rm = A.arg_or_kw(c, 1, P_RESULT)
         sites.append(Site(c, False, cm, fa.expand(cm, ids[0]) if cm is not None else None, fa.expand(rm, ids[0]) if rm is not None else None, ids[0], [ids]))
     ups = None
     for c in fa.calls("append"):
@@ -406,20 +414,21 @@ def _passes_unless_member(pd, add_nodes, elems):
 
 def _r3(ck, R3):
     pd = FA(ck, RL + ".propagate_dependencies")
-    CALLER_DEPS = "attr:caller_memento.function_dependencies"
+    P_CALLER, P_RESULT = _pd_params(ck)
+    CALLER_DEPS = "attr:%s.function_dependencies" % P_CALLER
     app = [c for c in pd.calls("append") if pd.nodes(c) and c.args and A.call_recv(c) is not None
-           and "attr:caller_memento.invocation_metadata.invocations" in pd.deps(A.call_recv(c))]
-    ok1 = bool(app) and all("attr:result_memento.invocation_metadata.fn_reference_with_args" in pd.deps(c.args[0]) for c in app) \
+           and "attr:%s.invocation_metadata.invocations" % P_CALLER in pd.deps(A.call_recv(c))]
+    ok1 = bool(app) and all("attr:%s.invocation_metadata.fn_reference_with_args" % P_RESULT in pd.deps(c.args[0]) for c in app) \
         and pd.cfg.must_pass(pd.nodes_all(app), pd.cfg.exit)
     ck.ob(R3, pd.key(None, "appends-invocation"), ok1, "the callee's reference-with-arguments is appended to the caller's invocations" if ok1 else
           "propagate_dependencies does not append the callee invocation to the caller's invocation list", pd.where())
     ups = [(ids, r, kind, x) for (ids, r, kind, x) in set_updates(pd) if CALLER_DEPS in pd.deps(r, ids[0])]
     adds = [(ids, x) for (ids, r, kind, x) in ups if kind == "elem"]
-    ok2 = bool(adds) and all("attr:result_memento.invocation_metadata.fn_reference_with_args.fn_reference" in pd.deps(x, ids[0]) for (ids, x) in adds) \
+    ok2 = bool(adds) and all("attr:%s.invocation_metadata.fn_reference_with_args.fn_reference" % P_RESULT in pd.deps(x, ids[0]) for (ids, x) in adds) \
         and _passes_unless_member(pd, [i for (ids, x) in adds for i in ids], [A.norm(x) for (ids, x) in adds])
     ck.ob(R3, pd.key(None, "adds-callee"), ok2, "the callee's function reference joins the caller's dependency set" if ok2 else
           "propagate_dependencies does not add the callee's function reference to the caller's dependencies", pd.where())
-    merges = [ids for (ids, r, kind, x) in ups if kind == "union" and "attr:result_memento.function_dependencies" in pd.deps(x, ids[0])]
+    merges = [ids for (ids, r, kind, x) in ups if kind == "union" and "attr:%s.function_dependencies" % P_RESULT in pd.deps(x, ids[0])]
     okm = bool(merges) and pd.cfg.must_pass([i for ids in merges for i in ids], pd.cfg.exit)
     ck.ob(R3, pd.key(None, "merges-transitive"), okm, "the callee's transitive dependencies are merged into the caller's on every path" if okm else
           "propagate_dependencies can return without merging the callee's dependency set (early return / missing union): when the same function is "
@@ -444,11 +453,12 @@ def _ctor_arg(ck, fa, call, init_qual, name):
 
 def _r4(ck, R4):
     sfi = FA(ck, "call_stack.StackFrame.__init__")
+    OWN = sfi.fi.params[1] if len(sfi.fi.params) > 1 else "fn_reference_with_args"
     mc = sfi.one([c for c in sfi.calls("Memento") if sfi.nodes(c)], "Memento(...) construction")
     fd = _ctor_arg(ck, sfi, mc, "metadata.Memento.__init__", "function_dependencies")
     if isinstance(fd, ast.Call) and isinstance(fd.func, ast.Name) and fd.func.id == "set" and len(fd.args) == 1 and isinstance(fd.args[0], (ast.List, ast.Tuple, ast.Set)):
         fd = ast.Set(elts=fd.args[0].elts)
-    ok4 = isinstance(fd, ast.Set) and len(fd.elts) == 1 and A.norm(fd.elts[0]) == "fn_reference_with_args.fn_reference"
+    ok4 = isinstance(fd, ast.Set) and len(fd.elts) == 1 and A.norm(fd.elts[0]) == OWN + ".fn_reference"
     ck.ob(R4, sfi.key(None, "self-in-deps"), ok4, "the dependency set starts as {own function reference}" if ok4 else
           "a new frame's dependency set does not start as {its own function reference} (%s)" % A.norm(fd), sfi.where(mc))
     im = sfi.one([c for c in sfi.calls("InvocationMetadata") if sfi.nodes(c)], "InvocationMetadata(...) construction")
@@ -457,7 +467,7 @@ def _r4(ck, R4):
     ok5 = isinstance(inv, ast.List) and not inv.elts and isinstance(res, ast.List) and not res.elts
     ck.ob(R4, sfi.key(None, "fresh-lists"), ok5, "invocations and resources start as fresh empty lists" if ok5 else
           "a new frame does not start with fresh empty invocation/resource lists", sfi.where(im))
-    ok6 = fr is not None and A.norm(fr) == "fn_reference_with_args"
+    ok6 = fr is not None and A.norm(fr) == OWN
     ck.ob(R4, sfi.key(None, "own-reference"), ok6, "the memento records the invocation's own reference" if ok6 else
           "the frame memento does not record the invocation's own reference", sfi.where(im))
 
